@@ -552,6 +552,8 @@ def main(modname, argv):
             bad = [v for v in outcome.violations if v.bucket not in known_buckets]
             for vio in outcome.violations:
                 print('replay: bucket=%s %s' % (vio.bucket, vio.summary))
+            if os.environ.get('VERIF_REPLAY_VERBOSE'):
+                print('replay: nontrivial=%s labels=%s counters=%s' % (outcome.nontrivial, sorted(outcome.labels), dict(outcome.counters)))
             if bad:
                 print('VIOLATION property=%s replay=%s' % (prop, os.path.abspath(args.replay)))
                 return 1
